@@ -5,16 +5,21 @@
      END
    Statement lines ("e" = 1 exported / 0 not):
      I <module.path>
-     F e <name> <body>
+     F e <name> <body> [<expr>]     expr: the `return` expression of a side-effect-free function
      S e <name> <generic 0|1> <member>:<extent|-> ...
      N e <name> <method> ...
      M e <iface|-> <struct> <m:b,..|-> <arity:b,..|-> <dtor b|-> <static,..|->
      T e <name> <target>
-     V e <name> <const 0|1> <init|->
+     V e <name> <const 0|1> <expr|->
+   Expressions (no blanks): term{+term}; term = INT | a (the parameter) | $name (variable, may be
+   qualified) | #Enum:Member | @f(expr) (call; the candidate bodies are collected from every F line
+   of the case that declares a function called f and has an expr).
      E e <name> <member>:<value> ...
      O e <name>
-   Output per case: "R ok" or "R err open <p> <fp>" / "R err conflict <m> <s>", then (if ok) the
-   current bindings of every table, one per line, then END. *)
+   Output per case: "R ok" or "R err open <p> <fp>" / "R err conflict <m> <s>" / "R err undefvar <x>" /
+   "R err undeffunc <f>" / "R err undefenum <e> <m>", then (if ok) the current bindings of every table,
+   one per line ("V name const value": the value the initialiser evaluated to; "H name v": the value of
+   name(3) for every bound function with a known body), then END. *)
 open C18_model
 
 let explode s = List.init (String.length s) (String.get s)
@@ -28,6 +33,40 @@ let split2 c s = match String.index_opt s c with
 let commas s = if s = "-" || s = "" then [] else String.split_on_char ',' s
 let opt_nat s = if s = "-" then None else Some (nat_of_int (int_of_string s))
 
+(* all function bodies of the current case: (function name, node id, expression text) *)
+let bodies : (string * int * string) list ref = ref []
+
+let rec parse_expr depth (s : string) : expr =
+  let n = String.length s in
+  (* split at top-level '+' *)
+  let parts = ref [] and start = ref 0 and lvl = ref 0 in
+  String.iteri (fun i c ->
+      if c = '(' then incr lvl else if c = ')' then decr lvl
+      else if c = '+' && !lvl = 0 then (parts := String.sub s !start (i - !start) :: !parts; start := i + 1)) s;
+  parts := String.sub s !start (n - !start) :: !parts;
+  let terms = List.rev_map (parse_term depth) !parts in
+  (match terms with
+   | [] -> failwith "empty expression"
+   | t :: r -> List.fold_left (fun acc x -> EAdd (acc, x)) t r)
+and parse_term depth (s : string) : expr =
+  if s = "" then failwith "empty term"
+  else if s = "a" then EParam
+  else match s.[0] with
+    | '$' -> EVar (explode (String.sub s 1 (String.length s - 1)))
+    | '#' -> let (en, m) = split2 ':' (String.sub s 1 (String.length s - 1)) in EEnum (explode en, explode m)
+    | '@' ->
+      let i = String.index s '(' in
+      let f = String.sub s 1 (i - 1) in
+      let arg = String.sub s (i + 1) (String.length s - i - 2) in
+      (* candidates by the unqualified function name (m.f and f denote declarations called f) *)
+      let base = match String.rindex_opt f '.' with Some j -> String.sub f (j + 1) (String.length f - j - 1) | None -> f in
+      let cands = if depth <= 0 then [] else
+          List.filter_map (fun (g, id, txt) -> if g = base then Some (nat_of_int id, parse_expr (depth - 1) txt) else None) !bodies in
+      ECall (explode f, cands, parse_expr depth arg)
+    | _ -> ELit (nat_of_int (int_of_string s))
+
+let expr_depth = 6
+
 let parse_stmt (ws : string list) : stmt =
   match ws with
   | ["I"; p] -> SImport (explode p)
@@ -35,6 +74,7 @@ let parse_stmt (ws : string list) : stmt =
     let ex = (e = "1") in
     let d = match k, rest with
       | "F", [n; b] -> DFunc (explode n, nat_of_int (int_of_string b))
+      | "F", [n; b; _] -> DFunc (explode n, nat_of_int (int_of_string b))
       | "S", n :: g :: mems ->
         DStruct (explode n, { sd_generic = (g = "1");
                              sd_members = List.map (fun m -> let (a, x) = split2 ':' m in
@@ -46,7 +86,7 @@ let parse_stmt (ws : string list) : stmt =
                 im_ctors = List.map (fun c -> let (a, b) = split2 ':' c in (nat_of_int (int_of_string a), nat_of_int (int_of_string b))) (commas cs);
                 im_dtor = opt_nat dt; im_statics = List.map explode (commas st) }
       | "T", [n; t] -> DTypedef (explode n, explode t)
-      | "V", [n; c; i] -> DVar (explode n, c = "1", opt_nat i)
+      | "V", [n; c; i] -> DVar (explode n, c = "1", (if i = "-" then None else Some (parse_expr expr_depth i)))
       | "E", n :: ms -> DEnum (explode n, List.map (fun m -> let (a, v) = split2 ':' m in (explode a, nat_of_int (int_of_string v))) ms)
       | "O", [n] -> DOther (explode n)
       | _ -> failwith ("bad statement: " ^ String.concat " " ws) in
@@ -71,6 +111,13 @@ let print_tables (t : tables) =
       | Some x -> Printf.printf "T %s %s\n" k (implode x) | None -> ()) (sorted_keys t.typedefs);
   List.iter (fun k -> match lookup (explode k) t.vars with
       | Some (c, v) -> Printf.printf "V %s %d %s\n" k (if c then 1 else 0) (onat v) | None -> ()) (sorted_keys t.vars);
+  (* value of k(3) for every bound function whose node has a known body *)
+  List.iter (fun k ->
+      let base = match String.rindex_opt k '.' with Some j -> String.sub k (j + 1) (String.length k - j - 1) | None -> k in
+      if List.exists (fun (g, _, _) -> g = base) !bodies then
+        match eval t O (parse_expr expr_depth ("@" ^ k ^ "(3)")) with
+        | VOk v -> Printf.printf "H %s %d\n" k (int_of_nat v)
+        | VErr _ -> Printf.printf "H %s !\n" k) (sorted_keys t.funcs);
   List.iter (fun k -> match lookup (explode k) t.enums with
       | Some ms -> Printf.printf "E %s %s\n" k (join (List.map (fun (a, v) -> implode a ^ ":" ^ string_of_int (int_of_nat v)) ms))
       | None -> ()) (sorted_keys t.enums);
@@ -90,31 +137,43 @@ let print_tables (t : tables) =
 
 let () =
   let files = ref [] and cur = ref [] and curname = ref None and main = ref [] in
+  let files : (string * string list list) list ref = files and cur : string list list ref = cur
+  and main : string list list ref = main in
   let flush_file () =
     (match !curname with
      | Some "MAIN" -> main := List.rev !cur
-     | Some n -> files := !files @ [(explode n, List.rev !cur)]
+     | Some n -> files := !files @ [(n, List.rev !cur)]
      | None -> ());
     cur := []; curname := None in
   (try while true do
       let l = input_line stdin in
       match words l with
       | [] -> ()
-      | ["CASE"] -> files := []; cur := []; curname := None; main := []
+      | ["CASE"] -> files := []; cur := []; curname := None; main := []; bodies := []
       | ["FILE"; p] -> flush_file (); curname := Some p
       | ["MAIN"] -> flush_file (); curname := Some "MAIN"
       | ["END"] ->
         flush_file ();
         (* recursion bound: every nesting level marks a new module path, and every path stems from an
            import statement (of the program or of a file) *)
+        let pfiles = List.map (fun (n, m) -> (explode n, List.map parse_stmt m)) !files in
+        let pmain = List.map parse_stmt !main in
         let nimp l = List.length (List.filter (function SImport _ -> true | _ -> false) l) in
-        let n = List.fold_left (fun acc (_, m) -> acc + nimp m) (nimp !main) !files in
-        let fuel = nat_of_int (n + 2) and pf = nat_of_int (List.length !files + 1) in
-        (match start_program fuel pf !files !main with
+        let n = List.fold_left (fun acc (_, m) -> acc + nimp m) (nimp pmain) pfiles in
+        let fuel = nat_of_int (n + 2) and pf = nat_of_int (List.length pfiles + 1) in
+        (match start_program fuel pf pfiles pmain with
          | Ok t -> print_endline "R ok"; print_tables t
          | Err (EOpen (p, fp)) -> Printf.printf "R err open %s %s\n" (implode p) (implode fp)
          | Err (EConflict (m, s)) -> Printf.printf "R err conflict %s %s\n" (implode m) (implode s)
-         | Err (EDepth p) -> Printf.printf "R err depth %s\n" (implode p));
+         | Err (EDepth p) -> Printf.printf "R err depth %s\n" (implode p)
+         | Err (EUndefVar x) -> Printf.printf "R err undefvar %s\n" (implode x)
+         | Err (EUndefFunc f) -> Printf.printf "R err undeffunc %s\n" (implode f)
+         | Err (EUndefEnum (e, m)) -> Printf.printf "R err undefenum %s %s\n" (implode e) (implode m)
+         | Err (ENoBody f) -> Printf.printf "R err nobody %s\n" (implode f));
         print_endline "END"
-      | ws -> cur := parse_stmt ws :: !cur
+      | ws ->
+        (match ws with
+         | ["F"; _; n; b; ex] -> bodies := !bodies @ [(n, int_of_string b, ex)]
+         | _ -> ());
+        cur := ws :: !cur
     done with End_of_file -> ())
